@@ -510,6 +510,11 @@ func checkProc(t rep.Fataler, c ProcCase) {
 		argCmd += " ${" + n + "}"
 		wantArgs = append(wantArgs, argNamed[n])
 	}
+	// … and the captured output of the producer as the last argument
+	outAsArg := len(c.Payload) < 100000
+	if outAsArg {
+		argCmd += " ${" + outVar + "}"
+	}
 	steps = append(steps, map[string]any{"name": "args1", "command": argCmd, "depends": []string{"mid"}})
 	handler := func(n string) map[string]any { return map[string]any{"command": "env -0", "stdout": pr(n)} }
 	def := map[string]any{
@@ -585,6 +590,21 @@ func checkProc(t rep.Fataler, c ProcCase) {
 		got := strings.Split(strings.TrimSuffix(string(ab), "\x00"), "\x00")
 		if len(ab) == 0 {
 			got = nil
+		}
+		if outAsArg {
+			// the output variable: equal to the trimmed payload; an empty value may
+			// reach the process as an empty argument or as no argument
+			wo := strings.TrimSpace(c.Payload)
+			switch {
+			case len(got) == len(wantArgs)+1:
+				if got[len(got)-1] != wo {
+					fail(map[string]any{"command": argCmd}, "run started with `%s`: the producer's output reaches a later command line (${%s}) as %q, the trimmed output is %q", paramStr, outVar, abbreviate(got[len(got)-1]), abbreviate(wo))
+				}
+				got = got[:len(got)-1]
+			case len(got) == len(wantArgs) && wo == "":
+			default:
+				fail(map[string]any{"command": argCmd, "got": got}, "run started with `%s`: the command line `%s` reached the process with %d argument(s), expected %d parameter(s) and the producer's output", paramStr, argCmd, len(got), len(wantArgs))
+			}
 		}
 		if len(got) != len(wantArgs) {
 			fail(map[string]any{"command": argCmd, "got": got, "want": wantArgs}, "run started with `%s`: the command line `%s` reached the process with %d argument(s) %q, expected %d %q", paramStr, argCmd, len(got), got, len(wantArgs), wantArgs)
